@@ -49,8 +49,8 @@ def congBin (op : String) (x o : Cong) : Option (Option Cong) :=
   | "mul" => some (some (Cong.mul x o))
   | "div" => some (some (Cong.div x o))
   | "sdiv" => some (some (Cong.div x o))
-  | "srem" => some (Cong.srem x o)
-  | "rem" => some (Cong.srem x o)
+  | "srem" => some (some (Cong.srem x o))
+  | "rem" => some (some (Cong.srem x o))
   | "udiv" => some (some (Cong.udiv x o))
   | "urem" => some (some (Cong.urem x o))
   | "and" => some (some (Cong.and x o))
@@ -183,9 +183,11 @@ def handleCong (op : String) (args : List Sexp) (res : List Sexp) : Verdict :=
   | [e1, e2], [v1, v2, r] =>
     match parseCong v1, parseCong v2 with
     | some x, some o =>
-      match (checkOperand e1 x).orElse (fun _ => checkOperand e2 o) with
-      | some d => .drift s!"cg.{op} {d}"
-      | none =>
+      -- a difference on an operand expression is reported only if the operation itself is fine
+      let opnd : Verdict := match (checkOperand e1 x).orElse (fun _ => checkOperand e2 o) with
+        | some d => .drift s!"cg.{op} {d}"
+        | none => .ok
+      (
         match op with
         | "leq" =>
           let m := Cong.leq x o
@@ -201,12 +203,12 @@ def handleCong (op : String) (args : List Sexp) (res : List Sexp) : Verdict :=
             if rb then
               match (congSamples x).find? (fun k => !o.contains k) with
               | some k => .unsound (ctx ++ s!" witness {k} in left not in right")
-              | none => if m == some rb then .ok else .drift ctx
+              | none => if m == rb then opnd else .drift ctx
             else if x.isBot || congEq x o then .unsound (ctx ++ " (must answer yes: bottom/equal operands)")
-            else if m == some rb then .ok else .drift ctx
+            else if m == rb then opnd else .drift ctx
         | "eq" =>
           match parseBool r with
-          | some rb => if Cong.beq x o == rb then .ok else .drift s!"cg.eq {showCong x} {showCong o} impl={rb}"
+          | some rb => if Cong.beq x o == rb then opnd else .drift s!"cg.eq {showCong x} {showCong o} impl={rb}"
           | none => .bad "cg.eq result"
         | _ =>
           if isShift op && !shiftOk o then .skip "cg: shift amount outside the evaluated range"
@@ -219,9 +221,9 @@ def handleCong (op : String) (args : List Sexp) (res : List Sexp) : Verdict :=
             | some rv =>
               match findUnsoundCong op x o rv with
               | some w => .unsound (ctx ++ " " ++ w)
-              | none => if optCongEq m ri then .ok else .drift ctx
+              | none => if optCongEq m ri then opnd else .drift ctx
           | none, _ => .bad s!"cg.{op}: unknown op"
-          | _, none => .bad s!"cg.{op}: result"
+          | _, none => .bad s!"cg.{op}: result")
     | _, _ => .bad s!"cg.{op}: operand values"
   | _, _ => .bad s!"cg.{op}: arity"
 
